@@ -1,5 +1,6 @@
 //! svh: searchlite verification harness. Drives the real code and records what it did; all
 //! verdicts are produced by TLC on the specifications in /verif/spec.
+mod adhoc;
 mod conc;
 mod corpus;
 mod qgen;
@@ -25,6 +26,7 @@ fn main() {
   }
   let args = util::Args::parse(&argv[2..]);
   let res = match argv[1].as_str() {
+    "adhoc" => adhoc::main(&args),
     "history" => history::main(&args),
     "crash" => crash::main(&args),
     "faults" => faults::main(&args),
